@@ -294,9 +294,13 @@ class Flattener:
         fn = copy.deepcopy(self.fi.node)
         fn.body = self._block(fn.body, [self.fi.qualname], 0)
         fn.body = structure_guards(fn.body, in_loop=False, function_level=self.function_guards)
+        fn.body = split_tuple_assignments(fn.body)
         fn.body = propagate_aliases(fn.body)
         fn.body = collapse_temps(fn.body, fn)
         fn.body = canonical_accumulations(fn.body)
+        fn.body = propagate_aliases(fn.body)
+        fn.body = collapse_temps(fn.body, fn)
+        fn.body = split_tuple_assignments(fn.body)
         fn.body = propagate_aliases(fn.body)
         fn.body = collapse_temps(fn.body, fn)
         fn = beta_reduce_lambdas(fn)
@@ -1000,6 +1004,32 @@ def beta_reduce_lambdas(fn: ast.FunctionDef) -> ast.FunctionDef:
 
     fn.body = prune(fn.body)
     return fn
+
+
+def split_tuple_assignments(stmts: list[ast.stmt]) -> list[ast.stmt]:
+    """`a, b = (e1, e2)` with plain names on the left that occur in none of the right-hand expressions is `a = e1; b = e2`."""
+    out = []
+    for st in stmts:
+        for fld in ("body", "orelse", "finalbody"):
+            b = getattr(st, fld, None)
+            if isinstance(b, list) and b and isinstance(b[0], ast.stmt):
+                setattr(st, fld, split_tuple_assignments(b))
+        if isinstance(st, ast.Try):
+            for h in st.handlers:
+                h.body = split_tuple_assignments(h.body)
+        if (isinstance(st, ast.Assign) and len(st.targets) == 1 and isinstance(st.targets[0], ast.Tuple) and isinstance(st.value, ast.Tuple)
+                and len(st.targets[0].elts) == len(st.value.elts) and all(isinstance(t, ast.Name) for t in st.targets[0].elts)
+                and not any(isinstance(e, ast.Starred) for e in st.value.elts)):
+            names = {t.id for t in st.targets[0].elts}
+            used = {n.id for e in st.value.elts for n in ast.walk(e) if isinstance(n, ast.Name)}
+            if not (names & used):
+                for t, e in zip(st.targets[0].elts, st.value.elts):
+                    a = ast.Assign(targets=[ast.Name(id=t.id, ctx=ast.Store())], value=e, lineno=st.lineno, col_offset=0)
+                    ast.fix_missing_locations(a)
+                    out.append(a)
+                continue
+        out.append(st)
+    return out
 
 
 def collapse_temps(stmts: list[ast.stmt], scope: ast.AST) -> list[ast.stmt]:
